@@ -174,6 +174,9 @@ func checkC05(ctx *Ctx) {
 		{Name: "pc0", Kind: "pcomb", PIn: "ps0"}, {Name: "P0", Kind: "proc", Ins: []string{"s0"}, PIn: "pc0"}, {Name: "P1", Kind: "proc", Ins: []string{"P0"}, PIn: "ps0"}}}})
 	cases = append(cases, c05Case{Buf: 1, Dag: Dag{Max: 4, Nodes: []DNode{{Name: "s0", Kind: "src", Items: 5}, {Name: "s1", Kind: "src", Items: 1},
 		{Name: "P0", Kind: "proc", Ins: []string{"s0"}}, {Name: "P2", Kind: "proc", Ins: []string{"P0", "P0"}}, {Name: "P3", Kind: "proc", Ins: []string{"P0", "s1"}}}}})
+	// a file stream and a parameter stream both end in the sink: Run must wait for the longer-running one
+	cases = append(cases, c05Case{Buf: 2, Dag: Dag{Max: 2, Nodes: []DNode{{Name: "s0", Kind: "src", Items: 4},
+		{Name: "P0", Kind: "proc", Ins: []string{"s0"}}, {Name: "ps0", Kind: "psrc", PVals: []string{"v0", "v1"}}}}})
 	cases = append(cases, c05Case{Buf: 2, Dag: Dag{Max: 2, Nodes: []DNode{{Name: "s0", Kind: "src", Items: 7},
 		{Name: "P0", Kind: "proc", Ins: []string{"s0"}}, {Name: "P1", Kind: "proc", Ins: []string{"P0"}}, {Name: "P2", Kind: "proc", Ins: []string{"P1"}}}}})
 	for i := 0; i < n; i++ {
